@@ -461,6 +461,20 @@ def replay(rep):
         obj = pool[o["pool"][0]][o["pool"][1]] if "pool" in o else o["lit"]
         blocks.append((BlockType[a.get("bt", "TABLE" if a["t"] else "METADATA")], obj))
     as_df = bool(inp.get("as_dataframe"))
+    # a failure may need an earlier bundle in the same process (state left behind in the class): an empty bundle is
+    # asked for every name first, through every accessor
+    from pdtable import TableBundle
+    try:
+        e = TableBundle(iter([]))
+        for nm in NAMES + BLANK_NAMES + ["absent"]:
+            for f in (lambda: getattr(e, nm), lambda: e[nm], lambda: e.unique(nm), lambda: e.all(nm), lambda: nm in e,
+                      lambda: hasattr(e, nm)):
+                try:
+                    f()
+                except Exception:  # noqa: BLE001
+                    pass
+    except Exception:  # noqa: BLE001 — the warm-up judges nothing
+        pass
     for form in range(5 if as_df else 4):
         o = Outcome()
         evaluate(blocks, abstract, as_df, len(blocks), dict(inp), o, form)
